@@ -10,6 +10,7 @@ def build(reg):
         "trusted": [
             "pydantic ModelMetaclass builds fields/validators and (de)serialises with the class's __json_encoder__ (T5)",
             "the parent metaclass initialiser of SchemaMagic is DynEncoderModelMetaclass.__init__ (MRO resolved by CPython)",
+            "T5 ModelField.infer(name=, value=, annotation=Optional[Any], ...) is the pydantic field with that name whose default is that value; is_enum / is_literal / isinstance(value, enum) / is_subtype(Literal[value], type) are opaque predicates of the field type and the value",
         ],
         "assumptions": ["dict.update(other) = pointwise override (built-in semantics)", "the value-level parsers (pint, isodate, semver, numpy) are opaque and exercised by the bounded tier only; of schema/types.py the repository's own dispatch (Duration.Parser.parse, StringParser.parse) is under contract"],
     }
